@@ -340,4 +340,33 @@ CHECKS = {
                "sweep lifted by forallb, wrap lemma) + definition-vs-"
                "implementation differential check",
  },
+ "C05": {
+  "text": "Theorems (all sizes): a network rebuilt from the edge list it "
+          "reports is the same adjacency (directed or not, edgeless "
+          "included); repeated / reversed pairs of an edge list add nothing; "
+          "undirected results are symmetric; mean weight * N = total weight; "
+          "link density * N(N-1) = number of non-zeros and is 0 for a single "
+          "node. Files: the vertex-attribute name save() writes, the name each "
+          "of the four Load methods looks up, whether it reads through "
+          "Network._read_graph and the alias repairs are regenerated from the "
+          "source on every run; with igraph's GML key rule (letters and digits "
+          "only, 'igraph' prefix) every loader is proved to find the node "
+          "weights in each of graphml / graphmlz / pickle / gml; clean "
+          "attribute names survive every format; the GML rule is idempotent. "
+          "Correspondence: set_edge_list / FromIGraph / edge-list round trip "
+          "and GML keys against igraph, inside Coq. Search: 11 constructor "
+          "paths, copy, igraph, link attributes, save+Load of Network, "
+          "SpatialNetwork, GeoNetwork, ClimateNetwork in all four formats, "
+          "GeoNetwork weight types.",
+  "design_ref": "DESIGN.md section 5, C05",
+  "note": "trusted: translator py_file_attrs.py (ast, fail-closed); the GML "
+          "key rule is igraph's, modelled for ASCII names and validated "
+          "against the installed igraph each run; file contents themselves "
+          "(igraph writers/readers, pickle, numpy dump/load) are exercised by "
+          "the search layer, not modelled",
+  "technique": "Coq proofs (edge-list algebra; attribute-name facts "
+               "regenerated from the source, decided by vm_compute and lifted "
+               "by forallb_forall) + vm_compute correspondence + "
+               "constructor-path differential check",
+ },
 }
